@@ -858,6 +858,13 @@ func (e *Eng) callIsEffectFree(x *ast.CallExpr, a *assignedSet) bool {
 	name := calleeName(fn, recvT)
 	if fi := e.u.byObj[fn.Origin()]; fi != nil {
 		if fi.Con != nil {
+			for _, g := range e.u.cs.Ghosts {
+				for _, en := range fi.Con.Ensures {
+					if containsWord(en.Src, g.Name) {
+						a.ghosts[g.Name] = true
+					}
+				}
+			}
 			if fi.Con.Pure {
 				return true
 			}
